@@ -152,7 +152,9 @@ where
 	if sl.state == SlateState::Invoice2 {
 		// An Invoice2 reply is finalized by the invoice's issuer. A context for which a payment
 		// proof was requested is a sender's: finalizing it here would skip the proof check.
-		if context.payment_proof_derivation_index.is_some() {
+		// Nor is the context of a late-locked send (no inputs or outputs yet): with it the
+		// offset adjustment below would hand the peer this wallet's blinding key.
+		if context.payment_proof_derivation_index.is_some() || context.late_lock_args.is_some() {
 			return Err(Error::SlateState);
 		}
 		// Add our contribution to the offset
